@@ -69,10 +69,14 @@ def run_chunk(mod_name, inst_name, prefix, budget_paths, budget_s):
             except BudgetExceeded as ex:
                 out["inconclusive"].append(str(ex))
             except Unsupported as ex:
+                if os.environ.get("MIRSYM_TB"):
+                    traceback.print_exc()
                 out["inconclusive"].append("unsupported: " + str(ex)[:400])
             except RecursionError:
                 out["inconclusive"].append("python recursion limit")
             except Exception as ex:
+                if os.environ.get("MIRSYM_TB"):
+                    traceback.print_exc()
                 out["inconclusive"].append("engine error: " + "".join(traceback.format_exception(type(ex), ex, ex.__traceback__))[-1500:])
             for w in e.witnesses:
                 out["witnesses"][w] = out["witnesses"].get(w, 0) + 1
